@@ -7,7 +7,7 @@
 import TrompModel.Model.CxxBase
 namespace Tromp.Cxx
 
-/-- `impl::starts_with_elements_checker::operator()` — translated from include/trompeloeil/matcher/range.hpp:596 -/
+/-- `impl::starts_with_elements_checker::operator()` — translated from include/trompeloeil/matcher/range.hpp:602 -/
 def starts_with_elements {α μ : Type} (accepts : μ → α → Bool) (range : List α) (elements : List μ) : Bool := Id.run do
   let mut it : List α := range
   let mut all_true : Bool := true
